@@ -1111,6 +1111,47 @@ func c13HijackScenario(w *core.W, seed uint64) {
 	w.NontrivialStr("hijack", fmt.Sprint(seed%4))
 }
 
+// scenario: the client goes away while its handler is still running; the handler's reply cannot be
+// written. The server still closes its end of that connection and shuts down cleanly.
+func c13ClientGoneScenario(w *core.W, kind string, seed uint64) {
+	e := newC13Env(w, kind, "client-gone-before-reply", seed)
+	if !e.start() {
+		return
+	}
+	e.holdOn.Store(true)
+	rq := e.send(88)
+	deadline := time.Now().Add(c13Watch)
+	for e.entered.Load() < 1 && time.Now().Before(deadline) {
+		time.Sleep(time.Millisecond)
+	}
+	if e.entered.Load() < 1 {
+		w.Inconclusive("c13-handler-not-entered:" + kind)
+	}
+	rq.close() // the client hangs up
+	e.ctl.Note("client.closed", "88")
+	time.Sleep(2 * time.Millisecond)
+	close(e.hold) // the handler now tries to reply
+	for deadline = time.Now().Add(c13Watch); e.exited.Load() < 1 && time.Now().Before(deadline); {
+		time.Sleep(time.Millisecond)
+	}
+	wrote := false
+	for _, ev := range e.ctl.Log() {
+		if ev.Point == "reply.written" && strings.HasSuffix(ev.Note, " false") {
+			wrote = true
+		}
+	}
+	if wrote {
+		w.Count("failed_reply_writes", 1)
+	}
+	sd := e.shutdown("s1", nil)
+	if err, ok := sd.wait(c13Watch); !ok {
+		e.viol("shutdown-does-not-return", "Shutdown did not return after the only client had gone away")
+	} else if err != nil {
+		e.viol("shutdown-error", fmt.Sprintf("Shutdown returned %v", err))
+	}
+	e.finish(nil, false)
+}
+
 type c13Case struct {
 	name string
 	run  func(w *core.W, seed uint64)
@@ -1147,6 +1188,9 @@ func c13Cases() []c13Case {
 			}
 		}
 		cs = append(cs, c13Case{kind + " misuse", func(w *core.W, s uint64) { c13MisuseScenario(w, kind, s) }})
+		if kind == "tcp-sim" || kind == "tls-sim" {
+			cs = append(cs, c13Case{kind + " client gone before reply", func(w *core.W, s uint64) { c13ClientGoneScenario(w, kind, s) }})
+		}
 		if kind == "tcp-sim" || kind == "pc-sim" {
 			cs = append(cs, c13Case{kind + " restart during drain", func(w *core.W, s uint64) { c13RestartDuringDrain(w, kind, s) }})
 		}
